@@ -25,9 +25,15 @@ def run(tier):
             jj = dict(j)
             jj['ops'] = [dict(at=at, op='pause'), dict(at=at + 4, op='resume')]
             jobs.append(jj)
+    # programs with sub-workflows paused TWICE: a task created before the first pause may start its sub-workflow while the parent is
+    # PAUSED; the second pause has to reach it
+    for k, j in enumerate(ec.random_jobs(rnd, n // 3, label='pause2', gen_kw=dict(partial_joins=False, p_sub=0.5, p_cmd=0.0, p_policy=0.15))):
+        at = rnd.randint(1, 12)
+        j['ops'] = [dict(at=at, op='pause'), dict(at=at + rnd.randint(2, 10), op='pause'), dict(at=10 ** 6, op='resume')]
+        jobs.append(j)
     return ec.run_property(PID, tier, jobs,
                            'generated programs paused at a random step and resumed a random number of steps later (catalogue shapes: pause at '
-                           'steps 2/6/10/14, resume 4 steps later); non-trivial = distinct runs in which the execution was observed PAUSED',
+                           'steps 2/6/10/14, resume 4 steps later); programs with sub-workflows paused twice, resumed at rest; non-trivial = distinct runs in which the execution was observed PAUSED',
                            _nontrivial, prescribed=True, strict=True,
                            model_behaviours=lambda d: ec.model_jobs(
                                d, tier, sims=[(None, 2 if tier == 'quick' else 8, 2, 0, ('pause', 'resume'))],
